@@ -61,7 +61,7 @@ CYCLE_STEPS = sorted(set(s * k + o for s in (7, 10, 12, 13, 24, 60, 235, 365, 36
 # from the first in exactly one field, in all fields, or in none.
 EQ_KINDS = {1: "SolarDay", 2: "SolarMonth", 3: "SolarYear", 4: "SolarTime", 5: "SolarWeek", 6: "LunarYear", 7: "LunarMonth", 8: "LunarDay",
             9: "LunarHour", 10: "LunarWeek", 11: "EightChar", 12: "JulianDay", 13: "SixtyCycleYear", 14: "ChildLimit", 15: "Fortune",
-            16: "DecadeFortune", 17: "SolarHalfYear", 18: "SolarSeason"}
+            16: "DecadeFortune", 17: "SolarHalfYear", 18: "SolarSeason", 19: "SolarFestival", 20: "LunarFestival"}
 N_CYC_TYPES = 42
 _MONTHS = None
 
@@ -127,6 +127,10 @@ def _eq_valid(kind, v):
         return 1 <= v[0] <= 9999 and 0 <= v[1] <= 1
     if kind == 18:
         return 1 <= v[0] <= 9999 and 0 <= v[1] <= 3
+    if kind == 19:      # all ten civil festivals exist from 1985 on
+        return 1990 <= v[0] <= 9999 and 0 <= v[1] <= 9
+    if kind == 20:      # the 13 lunar festivals of a lunar year whose neighbours exist
+        return 300 <= v[0] <= 9900 and 0 <= v[1] <= 12
     return False
 
 
@@ -170,6 +174,10 @@ def _eq_rand(rng, kind):
         return (rng.randint(1, 9999), rng.randint(0, 1))
     if kind == 18:
         return (rng.randint(1, 9999), rng.randint(0, 3))
+    if kind == 19:
+        return (rng.randint(1990, 9999), rng.randint(0, 9))
+    if kind == 20:
+        return (rng.randint(300, 9900), rng.randint(0, 12))
     return None
 
 
@@ -238,7 +246,32 @@ def dep_ops(rng, tier):
     return L
 
 
-def with_extra(base, eq_kinds=(), eq_cyc=(), objhist=(), dep=False):
+def lhour_cmp_ops(rng, tier):
+    """order and equality of the lunar hours of two civil instants (same instant, a second / an hour / a day / one or two
+    lunations apart — the leap twin of a month is one lunation away — and unrelated)"""
+    L = []
+    for _ in range(250 if tier == "quick" else 3000):
+        y, m, d = rand_date(rng, 300, 9900)
+        if not _civil_ok(y, m, d):
+            continue
+        a = (y, m, d, rng.choice([0, 22, 23, rng.randint(0, 23)]), rng.randint(0, 59), rng.randint(0, 59))
+        cands = [a, a[:5] + ((a[5] + 1) % 60,), a[:3] + ((a[3] + 1) % 24,) + a[4:], rand_date(rng, 300, 9900) + a[3:]]
+        for dd in (1, 29, 30, 59):
+            y2, m2, d2 = y, m, d + dd
+            while d2 > 28:
+                d2 -= 28; m2 += 1
+                if m2 > 12:
+                    m2 = 1; y2 += 1
+            if _civil_ok(y2, m2, d2):
+                cands.append((y2, m2, d2) + a[3:])
+        for b in cands:
+            if _civil_ok(*b[:3]):
+                p, q = (a, b) if rng.random() < 0.5 else (b, a)
+                L.append("lhour.cmp %s %s" % (" ".join(map(str, p)), " ".join(map(str, q))))
+    return L
+
+
+def with_extra(base, eq_kinds=(), eq_cyc=(), objhist=(), dep=False, lhour=False, ec_names=False, fetus_wire=False):
     """the property's own request generator plus the glue requests shared between properties"""
     def ops(rng, tier):
         L = list(base(rng, tier))
@@ -247,6 +280,12 @@ def with_extra(base, eq_kinds=(), eq_cyc=(), objhist=(), dep=False):
             L += objhist_ops(rng, tier, objhist)
         if dep:
             L += dep_ops(rng, tier)
+        if lhour:
+            L += lhour_cmp_ops(rng, tier)
+        if ec_names:
+            L += ["ec.names %d %d %d %d" % tuple(rng.randint(0, 59) for _ in range(4)) for _ in range(200 if tier == "quick" else 3000)]
+        if fetus_wire:
+            L += ["fetus.wire %d %d %d" % t for t in (rand_date(rng, 27, 9990) for _ in range(400 if tier == "quick" else 6000)) if _civil_ok(*t)]
         return L
     ops.__name__ = getattr(base, "__name__", "ops")
     ops.__doc__ = base.__doc__
